@@ -3,6 +3,7 @@ package props
 // C19 — Issuer validation and derivation.
 
 import (
+	"crypto/tls"
 	"fmt"
 	"net/http"
 	"net/url"
@@ -38,6 +39,10 @@ type C19Case struct {
 	// Twice: the issuer factory value is used for a second provider with the opposite insecure setting before the first
 	// issuer function is used (one factory value configuring two providers is ordinary use of the API).
 	Twice bool `json:"factory_used_twice,omitempty"`
+	// TLS: the request arrived over TLS; CtxIssuer: the request's context already carries an issuer (it descends from a request
+	// another provider's router handled, or the application set one): neither is the request's Host nor a configured header
+	TLS       bool   `json:"tls,omitempty"`
+	CtxIssuer string `json:"context_issuer,omitempty"`
 }
 
 var reURI = regexp.MustCompile(`^(([^:/?#]+):)?(//([^/?#]*))?([^?#]*)(\?([^#]*))?(#(.*))?$`)
@@ -213,6 +218,10 @@ func genC19Derived(t *rapid.T) C19Case {
 	c.ReqPath = rapid.SampledFrom([]string{"/metadata", "/evil/path/metadata", "/metadata?x=https://evil.example", "/"}).Draw(t, "reqpath")
 	c.Wellform = rapid.IntRange(0, 3).Draw(t, "malformed") != 0
 	c.Twice = rapid.IntRange(0, 3).Draw(t, "twice") == 0
+	c.TLS = rapid.Bool().Draw(t, "tls")
+	if rapid.IntRange(0, 2).Draw(t, "ctxissuer") == 0 {
+		c.CtxIssuer = rapid.SampledFrom([]string{"https://other-provider.example/saml", "http://ctx.example", "ftp://x"}).Draw(t, "ctxissuerv")
+	}
 	// header lines: configured headers and noise headers
 	names := append([]string{}, c.Headers...)
 	names = append(names, "X-Forwarded-Host", "X-Forwarded-Proto", "Forwarded", "X-Zitadel-Forwarded")
@@ -330,6 +339,12 @@ func c19Run(c C19Case) (vs []*ev.Violation, class string) {
 	for _, l := range c.Lines {
 		req.Header.Add(l[0], l[1])
 	}
+	if c.TLS {
+		req.TLS = &tls.ConnectionState{HandshakeComplete: true}
+	}
+	if c.CtxIssuer != "" {
+		req = req.WithContext(provider.ContextWithIssuer(req.Context(), c.CtxIssuer))
+	}
 	var got string
 	func() {
 		defer func() {
@@ -414,7 +429,11 @@ func c19Run(c C19Case) (vs []*ev.Violation, class string) {
 	}
 	rq, rqQuery, _ := strings.Cut(c.ReqPath, "?")
 	_ = rq
-	rep := obs.Do(w.Handler, obs.HTTPReq{Method: "GET", Path: "/metadata", RawQuery: rqQuery, Host: c.Host, Headers: c.Lines})
+	// the provider's own entry point for applications must give the same answer for this request
+	if viaProvider := w.Provider.IssuerFromRequest(req); viaProvider != got {
+		add("provider-issuer-from-request", "Provider.IssuerFromRequest gives %q, the configured issuer function %q (request context issuer %q)", viaProvider, got, c.CtxIssuer)
+	}
+	rep := obs.Do(w.Handler, obs.HTTPReq{Method: "GET", Path: "/metadata", RawQuery: rqQuery, Host: c.Host, Headers: c.Lines, TLS: c.TLS})
 	if rep.Status == 200 {
 		if doc, err := xt.Parse(rep.Body); err == nil {
 			want := strings.TrimSuffix(got, "/") + "/metadata"
